@@ -12,8 +12,10 @@ Local Open Scope Z_scope.
 Lemma decided_bind {A B} (r : res A) (k : A -> res B) : decided (bind r k) -> decided r.
 Proof. unfold decided; destruct r; cbn; auto. Qed.
 
+Ltac rr := intros; unfold wrel.
+
 Lemma wrel_of_rrel {A B} (Q : A -> B -> Prop) r r' : rrel Q r r' -> wrel Q r r'.
-Proof. right; auto. Qed.
+Proof. auto. Qed.
 
 Lemma wrel_bind {A B C D} (Q : A -> B -> Prop) (Q' : C -> D -> Prop) r1 r2 k1 k2 :
   decided (bind r1 k1) ->
@@ -21,9 +23,8 @@ Lemma wrel_bind {A B C D} (Q : A -> B -> Prop) (Q' : C -> D -> Prop) r1 r2 k1 k2
   (forall a b, r1 = Ok a -> Q a b -> decided (k1 a) -> wrel Q' (k1 a) (k2 b)) ->
   wrel Q' (bind r1 k1) (bind r2 k2).
 Proof.
-  intros Dd H1 H2. pose proof (decided_bind _ _ Dd) as D1. specialize (H1 D1).
-  destruct H1 as [->|H1]; [left; reflexivity|].
-  destruct H1; unfold decided in *; cbn in *; try discriminate; auto; right; constructor.
+  intros Dd H1 H2. pose proof (decided_bind _ _ Dd) as D1. specialize (H1 D1). unfold wrel in *.
+  destruct H1; unfold decided in *; cbn in *; try discriminate; auto; constructor.
 Qed.
 
 Section LibRel.
@@ -150,10 +151,10 @@ Lemma map_app_w f f' l l' :
   wrel (Forall2 vrel) (map_app app1 f l) (map_app app2 f' l').
 Proof.
   intros Hf Hl. induction Hl as [|x x' l l' Hx Hl IH]; simpl; intros D.
-  - right. repeat constructor.
+  - rr. repeat constructor.
   - eapply wrel_bind; [exact D|intros; apply Happ; auto|]. intros y y' _ Hy D2.
     eapply wrel_bind; [exact D2|intros; apply IH; auto|]. intros ys ys' _ Hys _.
-    right. repeat constructor; auto.
+    rr. repeat constructor; auto.
 Qed.
 
 Lemma accept_app_w f f' l l' :
@@ -161,11 +162,11 @@ Lemma accept_app_w f f' l l' :
   wrel (Forall2 vrel) (accept_app app1 f l) (accept_app app2 f' l').
 Proof.
   intros Hf Hl. induction Hl as [|x x' l l' Hx Hl IH]; simpl; intros D.
-  - right. repeat constructor.
+  - rr. repeat constructor.
   - eapply wrel_bind; [exact D|intros; apply Happ; auto|]. intros y y' _ Hy D2.
-    inv Hy; try (right; constructor).
+    inv Hy; try (rr; constructor).
     eapply wrel_bind; [exact D2|intros; apply IH; auto|]. intros ys ys' _ Hys _.
-    right. constructor. destruct b; auto.
+    rr. constructor. destruct b; auto.
 Qed.
 
 Lemma fold_app_w f f' acc acc' l l' :
@@ -173,7 +174,7 @@ Lemma fold_app_w f f' acc acc' l l' :
   wrel vrel (fold_app app1 f acc l) (fold_app app2 f' acc' l').
 Proof.
   intros Hf Ha Hl; revert acc acc' Ha. induction Hl as [|x x' l l' Hx Hl IH]; intros acc acc' Ha; simpl; intros D.
-  - right. constructor; auto.
+  - rr. constructor; auto.
   - eapply wrel_bind; [exact D|intros; apply Happ; auto|]. intros; apply IH; auto.
 Qed.
 
@@ -182,9 +183,9 @@ Lemma index_where_w f f' l l' i :
   wrel eq (index_where app1 f l i) (index_where app2 f' l' i).
 Proof.
   intros Hf Hl; revert i. induction Hl as [|x x' l l' Hx Hl IH]; intros i; simpl; intros D.
-  - right. repeat constructor.
+  - rr. repeat constructor.
   - eapply wrel_bind; [exact D|intros; apply Happ; auto|]. intros y y' _ Hy D2.
-    inv Hy; try (right; constructor). destruct b; [right; constructor; auto|apply IH; auto].
+    inv Hy; try (rr; constructor). destruct b; [rr; constructor; auto|apply IH; auto].
 Qed.
 
 Lemma mapargs_app_w f f' a a' :
@@ -192,10 +193,10 @@ Lemma mapargs_app_w f f' a a' :
   wrel (Forall2 vrel) (mapargs_app app1 f a) (mapargs_app app2 f' a').
 Proof.
   intros Hf Ha. induction Ha as [|x x' a a' Hx Ha IH]; cbn [mapargs_app]; intros D.
-  - right. repeat constructor.
+  - rr. repeat constructor.
   - eapply wrel_bind; [exact D|intros; apply Happ; auto|]. intros y y' _ Hy D2.
     eapply wrel_bind; [exact D2|intros; apply IH; auto|]. intros ys ys' _ Hys _.
-    right. repeat constructor; auto.
+    rr. repeat constructor; auto.
 Qed.
 
 Lemma compact_app_w f f' l l' :
@@ -204,11 +205,11 @@ Lemma compact_app_w f f' l l' :
   wrel (Forall2 vrel) (compact_app app1 f last l) (compact_app app2 f' last' l').
 Proof.
   intros Hf Hl. induction Hl as [|x x' l l' Hx Hl IH]; intros last last' Hlast; cbn [compact_app]; intros D.
-  - right. repeat constructor.
+  - rr. repeat constructor.
   - eapply wrel_bind; [exact D|intros; apply Happ; auto|]. intros y y' _ Hy D2.
-    inv Hy; try (right; constructor). destruct b; [apply IH; auto|].
+    inv Hy; try (rr; constructor). destruct b; [apply IH; auto|].
     eapply wrel_bind; [exact D2|intros; apply IH; auto|]. intros ys ys' _ Hys _.
-    right. repeat constructor; auto.
+    rr. repeat constructor; auto.
 Qed.
 
 Lemma scan_app_w three f f' l l' :
@@ -217,11 +218,11 @@ Lemma scan_app_w three f f' l l' :
   wrel (Forall2 vrel) (scan_app app1 three f li la l) (scan_app app2 three f' li' la' l').
 Proof.
   intros Hf Hl. induction Hl as [|x x' l l' Hx Hl IH]; intros li li' la la' Hli Hla; cbn [scan_app]; intros D.
-  - right. repeat constructor.
+  - rr. repeat constructor.
   - eapply wrel_bind; [exact D|intros; apply Happ; auto; destruct three; repeat constructor; auto|].
     intros o o' _ Ho D2.
     eapply wrel_bind; [exact D2|intros; apply IH; auto|]. intros ys ys' _ Hys _.
-    right. repeat constructor; auto.
+    rr. repeat constructor; auto.
 Qed.
 
 Lemma iir_app_w three ini ini' f f' l l' :
@@ -229,10 +230,10 @@ Lemma iir_app_w three ini ini' f f' l l' :
   wrel (Forall2 vrel) (iir_app app1 three ini f l) (iir_app app2 three ini' f' l').
 Proof.
   intros Hi Hf Hl. destruct Hl as [|x x' l l' Hx Hl]; cbn [iir_app]; intros D.
-  - right. repeat constructor.
+  - rr. repeat constructor.
   - eapply wrel_bind; [exact D|intros; apply Happ; auto|]. intros o o' _ Ho D2.
     eapply wrel_bind; [exact D2|intros; apply scan_app_w; auto|]. intros ys ys' _ Hys _.
-    right. repeat constructor; auto.
+    rr. repeat constructor; auto.
 Qed.
 
 Lemma merge_app_w f f' l1 l1' :
@@ -241,15 +242,15 @@ Lemma merge_app_w f f' l1 l1' :
   wrel (Forall2 vrel) (merge_app app1 f l1 l2) (merge_app app2 f' l1' l2').
 Proof.
   intros Hf H1. induction H1 as [|a a' l1 l1' Ha H1 IH1]; intros l2 l2' H2.
-  - intros _. right. destruct H2; cbn [merge_app]; repeat constructor; auto.
+  - intros _. rr. destruct H2; cbn [merge_app]; repeat constructor; auto.
   - induction H2 as [|b b' l2 l2' Hb H2 IH2]; cbn [merge_app]; intros D.
-    + right. repeat constructor; auto.
+    + rr. repeat constructor; auto.
     + eapply wrel_bind; [exact D|intros; apply Happ; auto|]. intros y y' _ Hy D2.
-      inv Hy; try (right; constructor). destruct b0.
+      inv Hy; try (rr; constructor). destruct b0.
       * eapply wrel_bind; [exact D2|intros; apply IH1; auto|]. intros ys ys' _ Hys _.
-        right. repeat constructor; auto.
+        rr. repeat constructor; auto.
       * eapply wrel_bind; [exact D2|intros; apply IH2; auto|]. intros ys ys' _ Hys _.
-        right. repeat constructor; auto.
+        rr. repeat constructor; auto.
 Qed.
 
 Lemma minmax_map_rel mn mn' mx mx' mni mni' mxi mxi' b :
@@ -269,20 +270,20 @@ Lemma minmax_app_w f f' l l' :
 Proof.
   intros Hf Hl. induction Hl as [|x x' l l' Hx Hl IH]; intros mn mn' mx mx' mni mni' mxi mxi' H1 H2 H3 H4;
     cbn [minmax_app]; intros D.
-  - right. constructor. apply minmax_map_rel; auto.
+  - rr. constructor. apply minmax_map_rel; auto.
   - eapply wrel_bind; [exact D|intros; apply Happ; auto|]. intros k k' _ Hk D2.
     rewrite (vless_rel _ _ _ _ Hk H1), (vless_rel _ _ _ _ H2 Hk) in *.
-    destruct (vless k' mn') as [le| | | |]; cbn [bind] in *; try (right; constructor).
-    destruct (vless mx' k') as [gr| | | |]; cbn [bind] in *; try (right; constructor).
+    destruct (vless k' mn') as [le| | | |]; cbn [bind] in *; try (rr; constructor).
+    destruct (vless mx' k') as [gr| | | |]; cbn [bind] in *; try (rr; constructor).
     apply IH; auto; [destruct le|destruct gr|destruct le|destruct gr]; auto.
 Qed.
 
 Ltac callback H Hl :=
   let Hv := fresh "Hv" in let Hr := fresh "Hr" in
-  destruct H as [|? ? ? ? Hv Hr]; [intros _; right; constructor|];
-  destruct Hr; [|intros _; right; constructor];
+  destruct H as [|? ? ? ? Hv Hr]; [intros _; rr; constructor|];
+  destruct Hr; [|intros _; rr; constructor];
   rewrite (is_func_rel _ _ _ Hv);
-  match goal with |- context [is_func ?f ?n] => destruct (is_func f n); [|intros _; right; constructor] end.
+  match goal with |- context [is_func ?f ?n] => destruct (is_func f n); [|intros _; rr; constructor] end.
 
 Lemma run_list_method_w mname l l' args args' :
   Forall2 vrel l l' -> Forall2 vrel args args' ->
@@ -290,111 +291,111 @@ Lemma run_list_method_w mname l l' args args' :
   wrel vrel (run_list_method app1 mname l args) (run_list_method app2 mname l' args').
 Proof.
   intros Hl H. unfold run_list_method.
-  destruct (str_eqb mname n_size). { right. rewrite (Forall2_length' _ _ _ Hl). repeat constructor. }
-  destruct (str_eqb mname n_first). { right. destruct Hl; constructor; auto. }
+  destruct (str_eqb mname n_size). { rr. rewrite (Forall2_length' _ _ _ Hl). repeat constructor. }
+  destruct (str_eqb mname n_first). { rr. destruct Hl; constructor; auto. }
   destruct (str_eqb mname n_last).
-  { right. destruct (Forall2_rev' _ _ _ Hl); constructor; auto. }
+  { rr. destruct (Forall2_rev' _ _ _ Hl); constructor; auto. }
   destruct (str_eqb mname n_map).
   { callback H Hl. intros D. eapply wrel_bind; [exact D|intros; apply map_app_w; auto|].
-    intros; right; repeat constructor; auto. }
+    intros; rr; repeat constructor; auto. }
   destruct (str_eqb mname n_accept).
   { callback H Hl. intros D. eapply wrel_bind; [exact D|intros; apply accept_app_w; auto|].
-    intros; right; repeat constructor; auto. }
+    intros; rr; repeat constructor; auto. }
   destruct (str_eqb mname n_reduce).
-  { callback H Hl. destruct Hl; [intros _; right; constructor|]. apply fold_app_w; auto. }
+  { callback H Hl. destruct Hl; [intros _; rr; constructor|]. apply fold_app_w; auto. }
   destruct (str_eqb mname n_mapReduce).
-  { destruct H as [|v v' r r' Hv Hr]; [intros _; right; constructor|].
-    destruct Hr as [|w w' r r' Hw Hr2]; [intros _; right; constructor|].
-    destruct Hr2; [|intros _; right; constructor].
-    rewrite (is_func_rel _ _ _ Hw). destruct (is_func w' 2); [|intros _; right; constructor].
+  { destruct H as [|v v' r r' Hv Hr]; [intros _; rr; constructor|].
+    destruct Hr as [|w w' r r' Hw Hr2]; [intros _; rr; constructor|].
+    destruct Hr2; [|intros _; rr; constructor].
+    rewrite (is_func_rel _ _ _ Hw). destruct (is_func w' 2); [|intros _; rr; constructor].
     apply fold_app_w; auto. }
-  destruct (str_eqb mname n_sum). { right. destruct Hl; [constructor|]. apply fold_calc_rel; auto. }
+  destruct (str_eqb mname n_sum). { rr. destruct Hl; [constructor|]. apply fold_calc_rel; auto. }
   destruct (str_eqb mname n_top).
-  { right. destruct H as [|v v' r r' Hv Hr]; [constructor|].
+  { rr. destruct H as [|v v' r r' Hv Hr]; [constructor|].
     destruct Hr; inv Hv; try (cbn; constructor; fail).
     constructor. constructor. destruct (z <? 0); auto.
     rewrite <- (Forall2_length' _ _ _ Hl). apply Forall2_firstn; auto. }
   destruct (str_eqb mname n_skip).
-  { right. destruct H as [|v v' r r' Hv Hr]; [constructor|].
+  { rr. destruct H as [|v v' r r' Hv Hr]; [constructor|].
     destruct Hr; inv Hv; try (cbn; constructor; fail).
     constructor. constructor. destruct (z <? 0); auto.
     rewrite <- (Forall2_length' _ _ _ Hl). apply Forall2_skipn; auto. }
   destruct (str_eqb mname n_append).
-  { right. destruct H as [|v v' r r' Hv Hr]; [constructor|]. destruct Hr; [|constructor].
+  { rr. destruct H as [|v v' r r' Hv Hr]; [constructor|]. destruct Hr; [|constructor].
     constructor. constructor. apply Forall2_app'; auto. }
-  destruct (str_eqb mname n_reverse). { right. constructor. constructor. apply Forall2_rev'; auto. }
+  destruct (str_eqb mname n_reverse). { rr. constructor. constructor. apply Forall2_rev'; auto. }
   destruct (str_eqb mname n_indexWhere).
   { callback H Hl. intros D. eapply wrel_bind; [exact D|intros; apply index_where_w; auto|].
-    intros ? ? _ -> _. right. repeat constructor. }
+    intros ? ? _ -> _. rr. repeat constructor. }
   destruct (str_eqb mname n_present).
   { callback H Hl. intros D. eapply wrel_bind; [exact D|intros; apply index_where_w; auto|].
-    intros ? ? _ -> _. right. repeat constructor. }
+    intros ? ? _ -> _. rr. repeat constructor. }
   destruct (str_eqb mname n_single).
-  { right. destruct Hl as [|e e' l l' Hx Hl]; [constructor|]. destruct Hl; constructor; auto. }
-  destruct (str_eqb mname n_min). { right. destruct Hl; [constructor|]. apply pick_min_rel; auto. }
-  destruct (str_eqb mname n_max). { right. destruct Hl; [constructor|]. apply pick_max_rel; auto. }
+  { rr. destruct Hl as [|e e' l l' Hx Hl]; [constructor|]. destruct Hl; constructor; auto. }
+  destruct (str_eqb mname n_min). { rr. destruct Hl; [constructor|]. apply pick_min_rel; auto. }
+  destruct (str_eqb mname n_max). { rr. destruct Hl; [constructor|]. apply pick_max_rel; auto. }
   destruct (str_eqb mname n_mean).
-  { right. rewrite (Forall2_length' _ _ _ Hl). destruct Hl; [constructor|].
+  { rr. rewrite (Forall2_length' _ _ _ Hl). destruct Hl; [constructor|].
     eapply rrel_bind; [apply fold_calc_rel; auto|]. intros s s' Hs. apply calc_rel; auto. constructor. }
   destruct (str_eqb mname n_minMax).
   { callback H Hl. destruct Hl as [|e e' l l' Hx Hl]; intros D.
-    - right. constructor. apply minmax_map_rel; constructor.
+    - rr. constructor. apply minmax_map_rel; constructor.
     - eapply wrel_bind; [exact D|intros; apply Happ; auto|]. intros k k' _ Hk D2. apply minmax_app_w; auto. }
   destruct (str_eqb mname n_number).
   { callback H Hl. intros D.
     eapply wrel_bind; [exact D|intros; apply mapargs_app_w; auto; apply number_args_rel; auto; constructor|].
-    intros; right; repeat constructor; auto. }
+    intros; rr; repeat constructor; auto. }
   destruct (str_eqb mname n_compact).
-  { callback H Hl. destruct Hl as [|e e' l l' Hx Hl]; intros D; [right; repeat constructor|].
-    eapply wrel_bind; [exact D|intros; apply compact_app_w; auto|]. intros; right; repeat constructor; auto. }
+  { callback H Hl. destruct Hl as [|e e' l l' Hx Hl]; intros D; [rr; repeat constructor|].
+    eapply wrel_bind; [exact D|intros; apply compact_app_w; auto|]. intros; rr; repeat constructor; auto. }
   destruct (str_eqb mname n_combine).
   { callback H Hl. intros D.
-    eapply wrel_bind; [exact D|intros; apply mapargs_app_w; auto|intros; right; repeat constructor; auto].
+    eapply wrel_bind; [exact D|intros; apply mapargs_app_w; auto|intros; rr; repeat constructor; auto].
     destruct Hl; [constructor|]. apply pair_args_rel; auto. }
   destruct (str_eqb mname n_combine3).
   { callback H Hl. intros D.
-    eapply wrel_bind; [exact D|intros; apply mapargs_app_w; auto|intros; right; repeat constructor; auto].
+    eapply wrel_bind; [exact D|intros; apply mapargs_app_w; auto|intros; rr; repeat constructor; auto].
     destruct Hl as [|e e' l l' Hx Hl]; [constructor|]. destruct Hl; [constructor|].
     apply triple_args_rel; auto. }
   destruct (str_eqb mname n_combineN).
-  { destruct H as [|v v' r r' Hv Hr]; [intros _; right; constructor|].
-    destruct Hr as [|w w' r r' Hw Hr2]; [inv Hv; intros _; right; constructor|].
-    destruct Hr2; inv Hv; try (intros _; right; cbn; constructor; fail).
-    destruct (z <? 1); [intros _; right; constructor|].
-    rewrite (is_func_rel _ _ _ Hw). destruct (is_func w' 1); [|intros _; right; constructor].
-    destruct (100000 <? z); [intros _; right; constructor|]. intros D.
-    eapply wrel_bind; [exact D|intros; apply mapargs_app_w; auto|intros; right; repeat constructor; auto].
+  { destruct H as [|v v' r r' Hv Hr]; [intros _; rr; constructor|].
+    destruct Hr as [|w w' r r' Hw Hr2]; [inv Hv; intros _; rr; constructor|].
+    destruct Hr2; inv Hv; try (intros _; rr; cbn; constructor; fail).
+    destruct (z <? 1); [intros _; rr; constructor|].
+    rewrite (is_func_rel _ _ _ Hw). destruct (is_func w' 1); [|intros _; rr; constructor].
+    destruct (100000 <? z); [intros _; rr; constructor|]. intros D.
+    eapply wrel_bind; [exact D|intros; apply mapargs_app_w; auto|intros; rr; repeat constructor; auto].
     apply windows_rel; auto. intros; constructor; auto. }
   destruct (str_eqb mname n_iir).
-  { destruct H as [|v v' r r' Hv Hr]; [intros _; right; constructor|].
-    destruct Hr as [|w w' r r' Hw Hr2]; [intros _; right; constructor|].
-    destruct Hr2; [|intros _; right; constructor].
-    rewrite (is_func_rel _ _ _ Hv). destruct (is_func v' 1); [|intros _; right; constructor].
-    rewrite (is_func_rel _ _ _ Hw). destruct (is_func w' 2); [|intros _; right; constructor]. intros D.
-    eapply wrel_bind; [exact D|intros; apply iir_app_w; auto|intros; right; repeat constructor; auto]. }
+  { destruct H as [|v v' r r' Hv Hr]; [intros _; rr; constructor|].
+    destruct Hr as [|w w' r r' Hw Hr2]; [intros _; rr; constructor|].
+    destruct Hr2; [|intros _; rr; constructor].
+    rewrite (is_func_rel _ _ _ Hv). destruct (is_func v' 1); [|intros _; rr; constructor].
+    rewrite (is_func_rel _ _ _ Hw). destruct (is_func w' 2); [|intros _; rr; constructor]. intros D.
+    eapply wrel_bind; [exact D|intros; apply iir_app_w; auto|intros; rr; repeat constructor; auto]. }
   destruct (str_eqb mname n_iirCombine).
-  { destruct H as [|v v' r r' Hv Hr]; [intros _; right; constructor|].
-    destruct Hr as [|w w' r r' Hw Hr2]; [intros _; right; constructor|].
-    destruct Hr2; [|intros _; right; constructor].
-    rewrite (is_func_rel _ _ _ Hv). destruct (is_func v' 1); [|intros _; right; constructor].
-    rewrite (is_func_rel _ _ _ Hw). destruct (is_func w' 3); [|intros _; right; constructor]. intros D.
-    eapply wrel_bind; [exact D|intros; apply iir_app_w; auto|intros; right; repeat constructor; auto]. }
+  { destruct H as [|v v' r r' Hv Hr]; [intros _; rr; constructor|].
+    destruct Hr as [|w w' r r' Hw Hr2]; [intros _; rr; constructor|].
+    destruct Hr2; [|intros _; rr; constructor].
+    rewrite (is_func_rel _ _ _ Hv). destruct (is_func v' 1); [|intros _; rr; constructor].
+    rewrite (is_func_rel _ _ _ Hw). destruct (is_func w' 3); [|intros _; rr; constructor]. intros D.
+    eapply wrel_bind; [exact D|intros; apply iir_app_w; auto|intros; rr; repeat constructor; auto]. }
   destruct (str_eqb mname n_cross).
-  { destruct H as [|v v' r r' Hv Hr]; [intros _; right; constructor|].
-    destruct Hr as [|w w' r r' Hw Hr2]; [intros _; right; constructor|].
-    destruct Hr2; [|intros _; right; constructor].
-    rewrite (is_func_rel _ _ _ Hw). destruct (is_func w' 2); [|intros _; right; constructor].
-    inv Hv; try (intros _; right; constructor). intros D.
-    eapply wrel_bind; [exact D|intros; apply mapargs_app_w; auto|intros; right; repeat constructor; auto].
+  { destruct H as [|v v' r r' Hv Hr]; [intros _; rr; constructor|].
+    destruct Hr as [|w w' r r' Hw Hr2]; [intros _; rr; constructor|].
+    destruct Hr2; [|intros _; rr; constructor].
+    rewrite (is_func_rel _ _ _ Hw). destruct (is_func w' 2); [|intros _; rr; constructor].
+    inv Hv; try (intros _; rr; constructor). intros D.
+    eapply wrel_bind; [exact D|intros; apply mapargs_app_w; auto|intros; rr; repeat constructor; auto].
     apply cross_args_rel; auto. }
   destruct (str_eqb mname n_merge).
-  { destruct H as [|v v' r r' Hv Hr]; [intros _; right; constructor|].
-    destruct Hr as [|w w' r r' Hw Hr2]; [intros _; right; constructor|].
-    destruct Hr2; [|intros _; right; constructor].
-    rewrite (is_func_rel _ _ _ Hw). destruct (is_func w' 2); [|intros _; right; constructor].
-    inv Hv; try (intros _; right; constructor). intros D.
-    eapply wrel_bind; [exact D|intros; apply merge_app_w; auto|intros; right; repeat constructor; auto]. }
-  right. constructor.
+  { destruct H as [|v v' r r' Hv Hr]; [intros _; rr; constructor|].
+    destruct Hr as [|w w' r r' Hw Hr2]; [intros _; rr; constructor|].
+    destruct Hr2; [|intros _; rr; constructor].
+    rewrite (is_func_rel _ _ _ Hw). destruct (is_func w' 2); [|intros _; rr; constructor].
+    inv Hv; try (intros _; rr; constructor). intros D.
+    eapply wrel_bind; [exact D|intros; apply merge_app_w; auto|intros; rr; repeat constructor; auto]. }
+  rr. constructor.
 Qed.
 
 Theorem run_method_w rv rv' mname args args' :
@@ -403,16 +404,16 @@ Theorem run_method_w rv rv' mname args args' :
   wrel vrel (run_method app1 rv mname args) (run_method app2 rv' mname args').
 Proof.
   intros Hr H. inv Hr; cbn [run_method].
-  - right. destruct (str_eqb mname n_string); [|constructor]. cbn. repeat constructor.
-  - right. destruct (str_eqb mname n_string); [|constructor]. cbn.
+  - rr. destruct (str_eqb mname n_string); [|constructor]. cbn. repeat constructor.
+  - rr. destruct (str_eqb mname n_string); [|constructor]. cbn.
     destruct (fl_to_str f); repeat constructor.
-  - right. destruct (str_eqb mname n_len); [repeat constructor|].
+  - rr. destruct (str_eqb mname n_len); [repeat constructor|].
     destruct (str_eqb mname n_string); repeat constructor.
-  - right. destruct (str_eqb mname n_string); [|constructor]. cbn. destruct b; repeat constructor.
-  - right. constructor.
+  - rr. destruct (str_eqb mname n_string); [|constructor]. cbn. destruct b; repeat constructor.
+  - rr. constructor.
   - apply run_list_method_w; auto.
-  - right. apply run_map_method_rel; auto.
-  - right. constructor.
+  - rr. apply run_map_method_rel; auto.
+  - rr. constructor.
 Qed.
 
 End WithApps.
